@@ -68,6 +68,8 @@ def install_reverse_contract():
 def make_case(prop, seed, i, tier):
     rng = rng_for(prop, seed, i)
     spec = G.gen_random(rng, G.profile(facility_rich=rng.random() < 0.3, max_time=60, two_parents=0.3))
+    if rng.random() < 0.1:
+        G.add_idle_parts(rng, spec)
     add_due_times(rng, spec)
     return dict(prop=prop, i=i, spec=spec, ops=gen_ops(rng))
 
